@@ -69,8 +69,26 @@ pub fn run<const V: u32>() {
         allow_big: !flag("nobig"),
         allow_bind: flag("bind"),
     };
-    for p in 0..programs {
-        random_program::<V>(&mut d, &params, p, ops, is_nogc);
+    let mode = arg_or("mode", "random");
+    match mode.as_str() {
+        "random" => {
+            for p in 0..programs {
+                random_program::<V>(&mut d, &params, p, ops, is_nogc);
+            }
+        }
+        "grid" => {
+            // C03: the legal argument grid on a fresh heap, then on a used (fragmented) heap
+            crate::modes::alloc_grid::<V>(&mut d, &params, 0);
+            for p in 0..programs {
+                random_program::<V>(&mut d, &params, p, ops, is_nogc);
+            }
+            crate::modes::alloc_grid::<V>(&mut d, &params, 1);
+        }
+        "cycles" => crate::modes::cycles::<V>(&mut d, &params, arg_u64("cycles", 40), cfg.heap_mb),
+        _ => {
+            eprintln!("unknown mode");
+            std::process::exit(2);
+        }
     }
     ev(Obj::new("End").int("copied", COPY_COUNT.load(Ordering::Relaxed) as i64));
     TRACE.flush();
@@ -94,7 +112,26 @@ fn pick_size(rng: &mut Rng, allow_big: bool) -> usize {
     (words as usize) * 8
 }
 
+/// Drop every root of every mutator and start a new program in the trace.
+pub fn reset(pi: u64) {
+    with_world(|w| {
+        for m in w.mutators.iter_mut() {
+            for r in m.roots.iter_mut() {
+                *r = 0;
+            }
+        }
+        for r in w.vm_roots.iter_mut() {
+            *r = 0;
+        }
+        w.pin_roots.clear();
+        w.tpin_roots.clear();
+        w.weak_table.clear();
+    });
+    ev(Obj::new("Reset").int("prog", pi as i64));
+}
+
 pub fn random_program<const V: u32>(d: &mut Driver<V>, p: &Params, pi: u64, nops: u64, is_nogc: bool) {
+    let probes = flag("probes");
     // Reset: drop every root of every bound mutator
     with_world(|w| {
         for m in w.mutators.iter_mut() {
@@ -172,6 +209,9 @@ pub fn random_program<const V: u32>(d: &mut Driver<V>, p: &Params, pi: u64, nops
         } else if c < 88 + gc_weight {
             let ex = d.rng.chance(1, 2);
             d.gc(m, ex);
+            if probes {
+                crate::modes::probes::<V>(d, p);
+            }
         } else if c < 96 && p.allow_bind {
             // bind / destroy a mutator (never the last one)
             let cand = d.rng.below(MAX_MUTATORS as u64) as usize;
